@@ -754,6 +754,43 @@ static void check_insert(Ctx &c, const std::u32string &text)
     if (got2 != want2)
         fail(c, strf("ostream<%s><<string<<string:differs:%s", cname<C>(), size_class(text)),
              strf("wrote [%s]", vf::hex_units(got2.data(), got2.size(), 32).c_str()));
+    // with a field width pending on the stream (every width from 0 to past the longer of the two lengths, three adjustments, a
+    // fill character): what a std::basic_string of the same units writes - the width counts units of the stream, once
+    if constexpr (std::is_same<C, char>::value || std::is_same<C, wchar_t>::value) {
+        std::basic_string<C> raw = units_of<C>(text);
+        size_t wmax = (u8.size() > raw.size() ? u8.size() : raw.size()) + 2;
+        for (size_t w = 0; w <= wmax; ++w)
+            for (int adj = 0; adj < 3; ++adj) {
+                std::ios_base::fmtflags fl = adj == 0 ? std::ios_base::left : adj == 1 ? std::ios_base::right : std::ios_base::internal;
+                std::basic_string<C> g, r;
+                long gw = -1, rw = -1;
+                vf::Outcome ow = vf::guard([&] {
+                    ST::string s = ST::string::from_validated(u8.data(), u8.size());
+                    std::basic_ostringstream<C> os, ref;
+                    os.width((std::streamsize)w);
+                    os.fill((C)'*');
+                    os.setf(fl, std::ios_base::adjustfield);
+                    os << s;
+                    gw = (long)os.width();
+                    os << s;
+                    g = os.str();
+                    ref.width((std::streamsize)w);
+                    ref.fill((C)'*');
+                    ref.setf(fl, std::ios_base::adjustfield);
+                    ref << raw;
+                    rw = (long)ref.width();
+                    ref << raw;
+                    r = ref.str();
+                });
+                VF_ADD("ops", 2);
+                VF_COUNT("validated");
+                if (!ow.ok()) return fail(c, strf("ostream<%s><<string(width pending):throws-%s:%s", cname<C>(), vf::outkind_name(ow.kind), size_class(text)), ow.str());
+                if (g != r || gw != rw)
+                    return fail(c, strf("ostream<%s><<string(width pending):differs:%s", cname<C>(), size_class(text)),
+                                strf("width %zu, adjustment #%d: wrote [%s] (width afterwards %ld), a std::basic_string of the same units writes [%s] (%ld)", w, adj,
+                                     vf::hex_units(g.data(), g.size(), 32).c_str(), gw, vf::hex_units(r.data(), r.size(), 32).c_str(), rw));
+            }
+    }
 }
 
 static void check_insert_all(Ctx &c, const std::u32string &text)
